@@ -227,7 +227,7 @@ impl Prop for C15 {
         "C15"
     }
     fn rule(&self, tier: Tier) -> String {
-        format!("E-SHAPE: real make_est_times on every (topology in the dispatch family{} with 0..2 alternative routes and 1-2 origin/destination segments) x origin/destination pair (both directions) x train length in {{360 m, 1080 m}} x departure in {{0, 300}} s; then EVERY node and EVERY start-to-end walk over idx_next / idx_next_alt of the returned graph (states = nodes, transitions = edges, traces = walks, all enumerated). distinct_nontrivial = distinct (topology, single/multi-origin, number of distinct routes spelled by the walks, number of walks) signatures.", if tier.is_thorough() { ", middle links 0.5 / 3 / 20 km" } else { ", middle links 3 km" })
+        format!("E-SHAPE: real make_est_times on every (topology in the dispatch family{} with 0..2 alternative routes and 1-2 origin/destination segments) x origin/destination pair (both directions) x train length in {{360 m, 1080 m}} x departure in {{0, 300}} s; then EVERY node and EVERY start-to-end walk over idx_next / idx_next_alt of the returned graph (states = nodes, transitions = edges, traces = walks, all enumerated). distinct_nontrivial = distinct (topology, single/multi-origin, number of distinct routes spelled by the walks, number of walks) signatures.", if tier.is_thorough() { ", middle links 0.5 / 3 / 20 km, departures {0,60,300,900,3600} s" } else { ", middle links 0.5 / 3 / 20 km" })
     }
     fn assumptions(&self) -> Vec<String> {
         vec![
@@ -236,9 +236,11 @@ impl Prop for C15 {
         ]
     }
     fn explore(&self, ctx: &mut Ctx) {
-        for t in topologies(ctx.tier.is_thorough()) {
+        // the graphs are tiny: both tiers use every middle-link length; the thorough tier adds departure times
+        let deps: Vec<u32> = if ctx.tier.is_thorough() { vec![0, 60, 300, 900, 3600] } else { vec![0, 300] };
+        for t in topologies(true) {
             for od in 0..t.ods.len() {
-                for dep in [0u32, 300] {
+                for &dep in &deps {
                     for long in [false, true] {
                         if !ctx.claim() {
                             continue;
